@@ -85,10 +85,14 @@ class FileUnderTest:
                     return IDX
                 return ('val', V[a:b, c:e])
             if method == 'get_trace':
-                i = args[0]
+                i, lo, hi = (list(args) + [None, None])[:3]
                 if not 0 <= i < nt:
                     return IDX
-                return ('val', V[i, :n_s])
+                lo = 0 if lo is None else lo
+                hi = n_s if hi is None else hi
+                if not 0 <= lo < hi <= n_s:
+                    return IDX
+                return ('val', V[i, lo:hi])
             return DIM
         if method == 'read_subplane':
             return DIM
@@ -224,6 +228,8 @@ def calls_for(rng, fut, n_random=30, full=False):
         zv = boundary_values(ns, sp.shape_pad[2], sp.bs[2])
         for t in tv:
             out.append(('get_trace', (t,)))
+        for z0, z1 in itertools.islice(itertools.product(zv, zv), 0, None, 5):
+            out.append(('get_trace', (rng.randrange(nt), z0, z1)))
         for _ in range(n_random):
             a, b = sorted(rng.sample(range(0, nt + 1), 2)) if nt >= 1 else (0, 1)
             c, e = sorted(rng.sample(range(0, ns + 1), 2))
